@@ -50,7 +50,9 @@ func newC11Cast() *c11Cast {
 	pf := world.SimpleCRL(p.CA, 6, 201).DER()
 	c.docs["parsefail{r}"] = pf[:len(pf)-30] // entries complete, signature truncated
 	ce := world.SimpleCRL(p.CA, 7, 201)
-	ce.Exts = append(ce.Exts, world.UnknownExt(true, 8))
+	// a critical issuingDistributionPoint (indirect CRL, some reasons only): a standard extension this validator does not
+	// implement - such a list must stay out of force like any other it cannot fully interpret
+	ce.Exts = append(ce.Exts, world.StdCriticalExt("idp"))
 	c.docs["critext{r}"] = ce.DER()
 	// the accepted lists carry no cRLNumber (it is optional): what supersedes a list is the later accepted download,
 	// not a number comparison
